@@ -1,8 +1,7 @@
 """deliberate breakages for contracts/c10_sweeps.py (sweep discipline of DMRG, 1D compression sweeps, 2D interleaved
 boundary bookkeeping).  Every expect-fail mutant changes behaviour on the property's domain and must turn a named
 obligation from discharged to failed.
-NOTE: MovingEnvironment.init_segment[begin=right] carries the open defect C10-d (UnboundLocalError for L == bsz) and fails
-on the unchanged tree already; its mutants are therefore listed for begin='left' code or checked through the callers."""
+NOTE: obligations that fail on the unchanged tree (open findings, see BASELINE_FAILING) are not counted as "caught"."""
 MODULES = ["contracts.c10_sweeps"]
 _DM = "quimb/tensor/tn1d/dmrg.py"
 _T1 = "quimb/tensor/tn1d/core.py"
@@ -11,9 +10,9 @@ _T2 = "quimb/tensor/tn2d/core.py"
 
 
 # obligations that fail on the UNCHANGED tree (open defects, reported): not counted as "caught"
-BASELINE_FAILING = {"MovingEnvironment.init_segment": ("no-raise-UnboundLocalError",),
-                    "DMRG._set_cutoff_seq": ("no-raise-TypeError",),
-                    "DMRG.solve": ("returned-variable-is-bound",)}
+BASELINE_FAILING = {"DMRG._set_cutoff_seq": ("no-raise-TypeError",),
+                    "DMRG.solve": ("returned-variable-is-bound",),
+                    "._contract_boundary_core": ("no-raise-TypeError",)}
 
 
 def run_mutant(tmp, relpath, suffix, old, new):
@@ -86,6 +85,8 @@ MUTANTS = [
     (_DM, "MovingEnvironment.init_segment", 'self.envs[i] ^= ("_LEFT", self.site_tag(i - 1))', 'self.envs[i] ^= ("_LEFT", self.site_tag(i))', "expect-fail"),
     (_DM, "MovingEnvironment.init_segment", "self.pos = stop - 1", "self.pos = stop", "expect-fail"),
     (_DM, "MovingEnvironment.init_segment", "for i in range(start + 1, stop):", "for i in range(start + 1, stop - 1):", "expect-fail"),
+    # (re-introduces finding C10-d: loop variable read after an empty loop when L == bsz)
+    (_DM, "MovingEnvironment.init_segment", 'self.envs[stop - 1] |= self.tnc["_RIGHT"]', 'self.envs[i] |= self.tnc["_RIGHT"]', "expect-fail"),
     # ---- MovingEnvironment.__init__
     (_DM, "MovingEnvironment.__init__", "start, stop = (0, self.L - self.bsz + 1)", "start, stop = (0, self.L - self.bsz)", "expect-fail"),
     (_DM, "MovingEnvironment.__init__", "start, stop = (0, self.L - self.bsz + 1)", "start, stop = (1, self.L - self.bsz + 1)", "expect-fail"),
@@ -264,4 +265,15 @@ MUTANTS = [
     (_T2, "TensorNetwork2D.contract_boundary_from", '        if mode == "mps":\n            tn._contract_boundary_core(**contract_boundary_opts)\n            return tn', '        if mode == "mps":\n            self._contract_boundary_core(**contract_boundary_opts)\n            return tn', "expect-fail"),
     (_T2, "TensorNetwork2D.contract_boundary_from", '        if mode == "mps":\n            tn._contract_boundary_core(**contract_boundary_opts)\n            return tn', '        if mode == "mps":\n            tn._contract_boundary_core(**contract_boundary_opts)\n            return self', "expect-fail"),
     (_T2, "TensorNetwork2D.contract_boundary_from", '        contract_boundary_opts["sweep_reverse"] = sweep_reverse', '        contract_boundary_opts["sweep_reverse"] = not sweep_reverse', "expect-fail"),
+    (_T2, "._contract_boundary_core", "                                    max_bond=max_bond,\n                                    cutoff=cutoff,\n                                    equalize_norms=equalize_norms,\n                                    **compress_opts,", "                                    max_bond=None,\n                                    cutoff=cutoff,\n                                    equalize_norms=equalize_norms,\n                                    **compress_opts,", "expect-fail"),
+    (_T2, "._contract_boundary_core", "                                    max_bond=max_bond,\n                                    cutoff=cutoff,\n                                    equalize_norms=equalize_norms,\n                                    **compress_opts,", "                                    max_bond=max_bond,\n                                    equalize_norms=equalize_norms,\n                                    **compress_opts,", "expect-fail"),
+    (_T2, "._contract_boundary_core", "                                    max_bond=max_bond,\n                                    cutoff=cutoff,\n                                    equalize_norms=equalize_norms,\n                                    **compress_opts,", "                                    max_bond=max_bond,\n                                    cutoff=cutoff,\n                                    equalize_norms=equalize_norms,", "expect-fail"),
+    (_T2, "._contract_boundary_core", "                        max_bond=max_bond,\n                        cutoff=cutoff,\n                        equalize_norms=equalize_norms,\n                        compress_opts=compress_opts,", "                        max_bond=1,\n                        cutoff=cutoff,\n                        equalize_norms=equalize_norms,\n                        compress_opts=compress_opts,", "expect-fail"),
+    (_T2, "._contract_boundary_core", "                        max_bond=max_bond,\n                        cutoff=cutoff,\n                        equalize_norms=equalize_norms,\n                        compress_opts=compress_opts,", "                        max_bond=max_bond,\n                        cutoff=0.0,\n                        equalize_norms=equalize_norms,\n                        compress_opts=compress_opts,", "expect-fail"),
+    (_T2, "._contract_boundary_core", "                        max_bond=max_bond,\n                        cutoff=cutoff,\n                        equalize_norms=equalize_norms,\n                        compress_opts=compress_opts,", "                        max_bond=max_bond,\n                        cutoff=cutoff,\n                        equalize_norms=equalize_norms,\n                        compress_opts=canonize_opts,", "expect-fail"),
+    (_T2, "._contract_boundary_core", "                    self.compress_plane(\n                        xrange=xrange if plane != \"x\" else (i, i),", "                    self.compress_plane(\n                        xrange=xrange if plane != \"x\" else (i + istep, i + istep),", "expect-fail"),
+    (_T2, "._contract_boundary_core", "                        yrange=yrange if plane != \"y\" else (i, i),\n                        yreverse=sweep_reverse,", "                        yrange=yrange if plane != \"y\" else (i, i),\n                        yreverse=not sweep_reverse,", "expect-fail"),
+    (_T2, "._contract_boundary_core", '        canonize_opts.setdefault("absorb", "right")\n        compress_opts = ensure_dict(compress_opts)\n        compress_opts.setdefault("absorb", "right")\n\n        r2d = Rotator2D(self, xrange, yrange, from_which)\n        site_tag = r2d.site_tag\n        plane, istep = r2d.plane, r2d.istep\n\n        if layer_tags is None:', '        canonize_opts.setdefault("absorb", "right")\n        compress_opts = ensure_dict(compress_opts)\n        compress_opts["absorb"] = "left"\n\n        r2d = Rotator2D(self, xrange, yrange, from_which)\n        site_tag = r2d.site_tag\n        plane, istep = r2d.plane, r2d.istep\n\n        if layer_tags is None:', "expect-fail"),
+    (_T2, "._contract_boundary_core", '        canonize_opts.setdefault("absorb", "right")\n        compress_opts = ensure_dict(compress_opts)\n        compress_opts.setdefault("absorb", "right")\n\n        r2d = Rotator2D(self, xrange, yrange, from_which)\n        site_tag = r2d.site_tag\n        plane, istep = r2d.plane, r2d.istep\n\n        if layer_tags is None:', '        canonize_opts.setdefault("absorb", "right")\n        compress_opts.setdefault("absorb", "right")\n\n        r2d = Rotator2D(self, xrange, yrange, from_which)\n        site_tag = r2d.site_tag\n        plane, istep = r2d.plane, r2d.istep\n\n        if layer_tags is None:', "expect-fail"),
+    (_T2, "._contract_boundary_core", "                            xreverse=not sweep_reverse,", "                            xreverse=sweep_reverse,", "expect-fail"),
 ]
